@@ -20,7 +20,20 @@ BIAS = dict(n_test_faults=[0, 1, 2, 3, 4], n_layer_faults=[0], p_buffer=0.7, p_j
 
 
 def gen(seed):
-    return _ws.gen_ws(seed, ID, BIAS)
+    spec = _ws.gen_ws(seed, ID, BIAS)
+    import random
+    rng = random.Random(seed ^ 0xC13)
+    if not spec['opt'].get('buffer') and rng.random() < 0.25:
+        # without --buffer the runner must leave the std streams alone - also a wrapper that
+        # a test installed for the rest of the process
+        from .. import common as C
+        disc = [d for d in W.Model(spec['world']).discover()
+                if C.test_phases(d) and not d['t'].get('doctest')]
+        if disc:
+            d = rng.choice(disc)
+            spec['plan'].insert(0, C.fault_entry(d, rng.choice(C.test_phases(d)),
+                                                 {'a': 'wrap_stdout'}))
+    return spec
 
 
 def run(spec, ctx):
